@@ -1118,6 +1118,22 @@ int main(void) {
       while ((cl = rfbClientIteratorNext(it))) { cnt += cl->sock >= 0; cnt += cl->state == RFB_NORMAL; }
       rfbReleaseClientIterator(it);
       ev(E_RET, NULL, 0, "iter");
+    } else if (!strcmp(tok[0], "iterwrite") && n == 2 && !did_cleanup) {
+      /* an application that walks the clients itself and writes to one of them under its sendMutex
+         (what rfbSendBell does), reaching the write only after the peer has gone: the reference held by
+         the iterator keeps the record alive, rfbWriteExact sees cl->sock == -1 */
+      rfbClientIteratorPtr it; rfbClientPtr cl; int guard = 0; char x = 2;
+      ev(E_CALL, NULL, 0, "iterwrite");
+      it = rfbGetClientIterator(scr);
+      cl = rfbClientIteratorNext(it);
+      if (cl) {
+        while (cl->sock >= 0 && guard++ < atoi(tok[1])) vsleep_ms(1);
+        LOCK(cl->sendMutex);
+        if (rfbWriteExact(cl, &x, 1) < 0) rfbCloseClient(cl);
+        UNLOCK(cl->sendMutex);
+      }
+      rfbReleaseClientIterator(it);
+      ev(E_RET, NULL, 0, "iterwrite");
     } else if (!strcmp(tok[0], "newfb") && n == 4 && !did_cleanup) {
       int w = atoi(tok[1]), h = atoi(tok[2]); uint32_t *nf = calloc((size_t)w * h + 1, 4), *old = server_fb; int i;
       for (i = 0; i < w * h; i++) nf[i] = (uint32_t)strtoul(tok[3], NULL, 10) + (uint32_t)i * 3;
